@@ -324,6 +324,122 @@ theorem C08_fast_path_sound_partial (m : OModel Rat) (pbs : List (Option (Rat ×
   simp only [Bool.and_eq_true] at hv
   exact ⟨⟨⟨⟨⟨⟨hmm, hv.1⟩, hv.2⟩, hne⟩, hb⟩, hcons⟩, hnp⟩
 
+/-! ### the consistency hypotheses follow from the repaired metadata stage (fix f3877d1) -/
+
+/-- since fix f3877d1 the metadata stage accepts a candidate only if it respects the registered
+bounds of BOTH sides: whenever it answers (`usesProp = false`), all bound rows on the objective are
+consistent with each other and with its domain.  These were hypotheses of the guards before. -/
+theorem consistent_of_meta_answer (m : OModel Rat) (isMax : Bool) (obj : Nat) (iv : FI Rat)
+    (hvo : m.vars[obj]? = some (.flt iv)) (hb : m.posts.all (boundPost obj) = true)
+    (hnp : usesProp m isMax obj = false) :
+    (∀ l ∈ m.posts.flatMap loOf, l ≤ iv.max) ∧ (∀ u ∈ m.posts.flatMap upOf, iv.min ≤ u) ∧
+      (∀ l ∈ m.posts.flatMap loOf, ∀ u ∈ m.posts.flatMap upOf, l ≤ u) := by
+  cases hp : m.propsNonEmpty with
+  | false =>
+    have hnil := posts_nil_of_no_meta m obj hb hp
+    simp [hnil]
+  | true =>
+    simp only [usesProp, hvo, hp, Bool.true_and] at hnp
+    cases htm : tryMeta iv obj m.metas isMax with
+    | none => rw [htm] at hnp; simp at hnp
+    | some r =>
+      cases r with
+      | fail => rw [htm] at hnp; simp at hnp
+      | ok v =>
+        have hU := effUpper_bound m obj hb
+        have hL := effLower_bound m obj hb
+        -- the accepted candidate lies in the domain and respects both effective bounds
+        have key : iv.min ≤ v ∧ v ≤ iv.max ∧ oppViolated obj m.metas v = false := by
+          simp only [tryMeta] at htm
+          split at htm
+          · simp at htm
+          · split at htm
+            · simp at htm
+            · rename_i c hc
+              split at htm
+              · simp at htm
+              · rename_i hin
+                split at htm
+                · simp at htm
+                · rename_i hov
+                  simp only [Option.some.injEq, ORes.ok.injEq] at htm
+                  subst htm
+                  num_simp at hin
+                  simp only [Bool.or_eq_true, decide_eq_true_eq, not_or, Rat.not_lt] at hin
+                  exact ⟨hin.1, hin.2, by simpa using hov⟩
+        obtain ⟨h1, h2, h3⟩ := key
+        simp only [oppViolated, Bool.or_eq_false_iff] at h3
+        have hlo : ∀ l ∈ m.posts.flatMap loOf, l ≤ v := by
+          intro l hl
+          cases hel : effLower obj m.metas with
+          | none => rw [hel] at hL; simp only at hL; rw [hL] at hl; simp at hl
+          | some l0 =>
+            rw [hel] at hL h3
+            simp only at hL h3
+            have := h3.1
+            num_simp at this
+            simp only [decide_eq_false_iff_not, Rat.not_lt] at this
+            exact Rat.le_trans (hL.2 l hl) this
+        have hup : ∀ u ∈ m.posts.flatMap upOf, v ≤ u := by
+          intro u hu
+          cases heu : effUpper obj m.metas with
+          | none => rw [heu] at hU; simp only at hU; rw [hU] at hu; simp at hu
+          | some u0 =>
+            rw [heu] at hU h3
+            simp only at hU h3
+            have := h3.2
+            num_simp at this
+            simp only [decide_eq_false_iff_not, Rat.not_lt] at this
+            exact Rat.le_trans this (hU.2 u hu)
+        refine ⟨fun l hl => Rat.le_trans (hlo l hl) h2, fun u hu => Rat.le_trans h1 (hup u hu),
+          fun l hl u hu => Rat.le_trans (hlo l hl) (hup u hu)⟩
+
+/-- the guard of `C08_fast_path_sound` : every posted constraint is a props-level non-strict bound
+or `x = c` on the OBJECTIVE variable, and the router's answer does not come from the propagation
+input.  No consistency hypothesis is left. -/
+def fastGuard' (m : OModel Rat) (isMax : Bool) (obj : Nat) : Bool :=
+  m.posts.all (boundPost obj) && !usesProp m isMax obj
+
+/-- **C08 (fast path) after fix f3877d1.**  The statement of `C08_fast_path_sound_partial` without
+its consistency hypotheses: under `fastGuard'` a fast-path answer of `Model::minimize` /
+`Model::maximize` is a feasible point of the model and no feasible point is better — in particular
+the fast path no longer answers a model whose bound rows are inconsistent. -/
+theorem C08_fast_path_sound (m : OModel Rat) (pbs : List (Option (Rat × Rat))) (isMax : Bool)
+    (obj : Nat) (sol : List (FVal Rat))
+    (hg : fastGuard' m isMax obj = true) (h : entry m pbs isMax obj = .fast sol) :
+    feasible m (solPoint sol) = true ∧
+      ∀ a, feasible m a = true → atLeastAsGood isMax (a.getD obj 0) ((solPoint sol).getD obj 0) := by
+  simp only [fastGuard', Bool.and_eq_true, Bool.not_eq_true'] at hg
+  obtain ⟨hb, hnp⟩ := hg
+  -- a fast-path answer comes from a router call on the objective, which is then a float variable
+  have hflt : ∃ iv, m.vars[obj]? = some (.flt iv) := by
+    have hr : ∃ d s, route m pbs d obj = .fast s := by
+      simp only [entry] at h
+      split at h
+      · simp at h
+      · split at h
+        · simp at h
+        · cases hr1 : route m pbs isMax obj with
+          | fast s => exact ⟨isMax, s, hr1⟩
+          | panic => rw [hr1] at h; simp at h
+          | declined r =>
+            rw [hr1] at h
+            simp only at h
+            split at h
+            · cases hr2 : route m pbs false obj with
+              | fast s => exact ⟨false, s, hr2⟩
+              | panic => rw [hr2] at h; simp at h
+              | declined r2 => rw [hr2] at h; simp at h
+            · simp at h
+    obtain ⟨d, s, hr⟩ := hr
+    obtain ⟨x, hx, _⟩ := route_fast m pbs d obj s hr
+    exact (extractSimple_some m.vars obj x hx).2
+  obtain ⟨iv, hvo⟩ := hflt
+  refine C08_fast_path_sound_partial m pbs isMax obj sol ?_ h
+  obtain ⟨c1, c2, c3⟩ := consistent_of_meta_answer m isMax obj iv hvo hb hnp
+  simp only [fastGuard, hvo, Bool.and_eq_true, Bool.not_eq_true', List.all_eq_true, decide_eq_true_eq]
+  exact ⟨⟨⟨⟨c1, c2⟩, List.all_eq_true.mp hb⟩, c3⟩, hnp⟩
+
 /-! ### (1) fast path: full strength is false — one counterexample per defect class -/
 
 /-- the entry point answered through the fast path and the answer satisfies `p` -/
@@ -444,6 +560,10 @@ def mGuarded : OModel Rat :=
   { vars := [fl 0 10, .int [2, 3]], posts := [.cmp .le (.v 0) (.c (9 / 2)), .cmp .le (.c 1) (.v 0)] }
 
 example : fastGuard mGuarded true 0 = true ∧ entry mGuarded [] true 0 = .fast [.f (9 / 2), .i 2] := by
+  constructor <;> decide +kernel
+
+/-- the guard of the strengthened theorem is satisfiable on the same model, in both directions -/
+example : fastGuard' mGuarded true 0 = true ∧ fastGuard' mGuarded false 0 = true := by
   constructor <;> decide +kernel
 
 /-! ### (2) root LP step -/
